@@ -221,6 +221,11 @@ def gen_name(rng, u):
         chars += NAME_CHARS_U
     if rng.random() < 0.15:
         chars = "ab" + NAME_CHARS_ODD + (NAME_CHARS_ODD_U if u else NAME_CHARS_ODD_L1)
+    if rng.random() < 0.1:
+        # text that LOOKS escaped (percent sequences, RFC 2231 / 5987 forms, HTML entities): a name is the text between the
+        # quotes, nothing in it is to be interpreted
+        return rng.choice(["report%20final.pdf", "50%25 off", "scan%41", "%0D%0A", "a%22b", "%", "%zz", "100%", "utf-8''x", "&amp;", "&#34;",
+                           "a+b", "=?utf-8?q?x?="]) + rng.choice(["", "", "%2F", "x"])
     return "".join(rng.choice(chars) for _ in range(rng.choice([0, 1, 1, 2, 3, 5, 9])))
 
 
